@@ -466,6 +466,13 @@ func c18SST(dir string, seed int64, perG int) c18Result {
 					if bytes.Compare(lo, hi) > 0 {
 						lo, hi = hi, lo
 					}
+					if gr.Intn(4) == 0 {
+						// a range that covers the whole table (from at/below its first key to at/above its last one)
+						lo, hi = kvs[0].k, kvs[len(kvs)-1].k
+						if gr.Intn(2) == 0 {
+							lo, hi = []byte{}, []byte{0xff, 0xff, 0xff, 0xff, 0xff, 0xff, 0xff, 0xff, 0xff}
+						}
+					}
 					it, err := rd.ScanRange(lo, hi)
 					if err != nil {
 						mm.add("ScanRange(%x,%x): %v", lo, hi, err)
@@ -513,6 +520,9 @@ func c18MMap(dir string, seed int64, perG int) c18Result {
 			recs = append(recs, nil)
 		case 1:
 			recs = append(recs, []byte{})
+		case 2:
+			// records spanning several 4 KiB windows of the seek scan (incompressible, so also on disk)
+			recs = append(recs, gen.Bytes(r, 5000+r.Intn(20000)))
 		default:
 			recs = append(recs, gen.Payload(r, 400))
 		}
